@@ -17,7 +17,7 @@ RULE = ("cases = (claims, options, now, leeway); grid: every time claim at now-l
         "now in {0,1,1e9,2^31,2^40} x leeway in {0,1,60,1e6}; every JSON type in every registered claim; all 16 combinations of "
         "essential/value/values/allow_blank per claim; plus seeded random mixtures and a fake-clock history for now=None. "
         "Non-trivial: the spec gives a definite verdict (not an open region); distinct by canonical JSON of the case.")
-ASSUMPTIONS = ["spec() transcribes the property statement; open regions (exp == now-leeway, booleans where numbers are expected, NaN, "
+ASSUMPTIONS = ["spec() transcribes the property statement; open regions (exp == now-leeway, NaN, "
                "equality across bool/number, value and values both given and disagreeing, empty option dict, empty requested audience list, "
                "falsy requested aud value) are not judged"]
 
@@ -69,9 +69,7 @@ def spec(claims: dict, options: dict, now, leeway):
     for name, val in claims.items():
         opt = options.get(name)
         if name in ("exp", "nbf", "iat"):
-            if isinstance(val, bool):
-                raise Open("bool-as-number")
-            if not _is_num(val):
+            if not _is_num(val):     # JSON true / false are not numbers
                 bad.add("InvalidClaimError")
                 continue
             if isinstance(val, float) and math.isnan(val):
